@@ -107,7 +107,7 @@ def encrypt_on_write(prog, chk, pid):
 def config_component(prog, chk, pid):
     P = lambda s: "%s.%s" % (pid, s)
     fi = prog.method(BF3 + ".Bf3File", "set_config")
-    ex = Exec(prog, policy=lambda e, f, d: f.name in ("_get_config_ndx",))
+    ex = Exec(prog, policy=lambda e, f, d: f.name in ("_get_config_ndx",) or f.qualname.endswith("Bf3Component.__init__"))
     res = ex.run(fi)
     where = "%s:%d" % (fi.file, fi.lineno)
     news = [e for e in res.events if e.kind == "new" and e.d["cls"].name == "Bf3Component"]
